@@ -37,7 +37,9 @@ IntTexts == <<"0", "1", "-1", "127", "128", "255", "256", "65535", "65536", "214
               "1234567890123456789", "9223372036854775806", "9223372036854775807", "-9223372036854775807", "0x7fffffffffffffff", "0xff", "017">>
 FloatTexts == <<"0.0", "0.5", "1.5", "-2.25", "0.1", "0.30000000000000004", "123456789.125", "9007199254740993.0", "1000000000000000.0",
                "1000000000000000000000.0", "100.0", "0.000001", "179769313486231570000000000000000000000.0">>
-StrTexts == <<"\"\"", "\"a\"", "\"a b\"", "\"\\n\\t\\\\\"", "\"\\\"q\\\"\"", "\"\\u00e9\"", "\"\\U0001F600 x\"", "'single'", "`raw\\n`", "\"{}\"", "'{1 + 1}'", "\"0\"", "\"nil\"", "\"true\"">>
+StrTexts == <<"\"\"", "\"a\"", "\"a b\"", "\"\\n\\t\\\\\"", "\"\\\"q\\\"\"", "\"\\u00e9\"", "\"\\U0001F600 x\"", "'single'", "`raw\\n`", "\"{}\"", "'{1 + 1}'", "\"0\"", "\"nil\"", "\"true\"",
+              \* characters that text encodings treat specially: ESC, NUL, BEL / VT, DEL, a tag character of plane 14, C1 controls
+              "\"\\x1b[1mbold\\x1b[0m\"", "\"a\\x00b\"", "\"\\a\\v\"", "\"\\x7f\"", "\"\\U000E0067\"", "\"\\u0085\\u2028\"">>
 OtherTexts == <<"true", "false", "nil">>
 ConstTexts == IntTexts \o FloatTexts \o StrTexts \o OtherTexts
 Numeric(k) == k <= Len(IntTexts) + Len(FloatTexts)
